@@ -1,2 +1,81 @@
-(* C16 statements; proofs in Proofs/. *)
-From BaoV Require Import Model.Fsm Spec.EncSpec.
+(* C16 - decoding the last chunk authenticates the claimed size.  Statements only; proofs in
+   Proofs/Size*.v. *)
+From BaoV Require Import Model.Fsm Spec.EncSpec Spec.RangeSpec Spec.PlanSpec Spec.HashAssm.
+From BaoV Require Import Proofs.DecLoop.
+From BaoV Require Import Proofs.SizeHash Proofs.SizeDec Proofs.SizeSpine Proofs.SizeMain.
+
+(* a decoder created with the TRUE root hash of `data` but a CLAIMED size size', whose query selects
+   the last chunk of the claimed geometry, finishes without error on NO stream unless size' = |data| *)
+Theorem C16_size_authenticated : forall HO, hash_ok HO ->
+  forall (data : bytes HO) size' bs q (stream : bytes HO) ys st,
+  size' <= 2 ^ 63 -> blen HO data <= 2 ^ 63 -> bs <= 10 -> wf_ranges q = true ->
+  sel q size' (nchunks size' - 1) = true ->
+  dec_run HO (dec_new HO (root_hash HO data) (mkTree size' bs) stream q) = (ys, Finished, st) ->
+  size' = blen HO data.
+Proof. exact c16_size_authenticated. Qed.
+Print Assumptions C16_size_authenticated.
+
+Theorem C16_size_authenticated_fsm : forall HO, hash_ok HO ->
+  forall (data : bytes HO) size' bs q (stream : bytes HO) ys st,
+  size' <= 2 ^ 63 -> blen HO data <= 2 ^ 63 -> bs <= 10 -> wf_ranges q = true ->
+  sel q size' (nchunks size' - 1) = true ->
+  rd_run HO (rd_new HO (root_hash HO data) q (mkTree size' bs) stream) = (ys, Finished, st) ->
+  size' = blen HO data.
+Proof. exact c16_size_authenticated_fsm. Qed.
+Print Assumptions C16_size_authenticated_fsm.
+
+(* no claimed size (and no stream) makes the decoder models panic or exhaust their loop fuel *)
+Theorem C16_total : forall HO, hash_ok HO ->
+  forall (data : bytes HO) size' bs q (stream : bytes HO),
+  size' <= 2 ^ 63 -> blen HO data <= 2 ^ 63 -> bs <= 10 -> wf_ranges q = true ->
+  sel q size' (nchunks size' - 1) = true ->
+  (forall ys o st,
+     dec_run HO (dec_new HO (root_hash HO data) (mkTree size' bs) stream q) = (ys, o, st) ->
+     o <> Panicked /\ o <> OutOfFuel) /\
+  (forall ys o st,
+     rd_run HO (rd_new HO (root_hash HO data) q (mkTree size' bs) stream) = (ys, o, st) ->
+     o <> Panicked /\ o <> OutOfFuel).
+Proof. exact c16_total. Qed.
+Print Assumptions C16_total.
+
+(* the same for an arbitrary expected root value *)
+Theorem C16_total_any_root : forall HO, hash_ok HO ->
+  forall (root : hash HO) size' bs q (stream : bytes HO),
+  size' <= 2 ^ 63 -> bs <= 10 -> wf_ranges q = true ->
+  sel q size' (nchunks size' - 1) = true ->
+  (forall ys o st, dec_run HO (dec_new HO root (mkTree size' bs) stream q) = (ys, o, st) ->
+     o <> Panicked /\ o <> OutOfFuel) /\
+  (forall ys o st, rd_run HO (rd_new HO root q (mkTree size' bs) stream) = (ys, o, st) ->
+     o <> Panicked /\ o <> OutOfFuel).
+Proof. exact c16_total_any_root. Qed.
+Print Assumptions C16_total_any_root.
+
+(* ---- the key lemmas ---- *)
+(* hash_subtree is injective in (start chunk, data), for data of DIFFERENT lengths and flags *)
+Theorem C16_hash_subtree_inj_len : forall HO, hash_ok HO ->
+  forall s1 s2 (d1 d2 : bytes HO) r1 r2,
+  blen HO d1 <= 1024 * 2 ^ 63 -> blen HO d2 <= 1024 * 2 ^ 63 ->
+  hash_subtree HO s1 d1 r1 = hash_subtree HO s2 d2 r2 -> s1 = s2 /\ d1 = d2.
+Proof. exact hash_subtree_inj_gen. Qed.
+Print Assumptions C16_hash_subtree_inj_len.
+
+(* the plan decoders (any step function whose accepted steps compare the expected value) over the
+   claimed plan, started from the true root value *)
+Theorem C16_plan_size_authenticated : forall HO, hash_ok HO ->
+  forall step, step_ok HO step ->
+  forall (data : bytes HO) size' bs q,
+  size' <= 2 ^ 63 -> blen HO data <= 2 ^ 63 -> wf_ranges q = true ->
+  sel q size' (nchunks size' - 1) = true ->
+  forall plan root stk enc,
+  plan = pre_plan size' 0 bs (truncate_ranges q size') -> root = root_hash HO data ->
+  r_outcome HO (dec_items HO step plan (root :: stk) enc) = Finished ->
+  size' = blen HO data.
+Proof. exact plan_size_authenticated. Qed.
+Print Assumptions C16_plan_size_authenticated.
+
+(* the response iterator always ends within fewer than 2^64 items and yields the recursive plan *)
+Theorem C16_response_ends : forall size bs q, size <= 2 ^ 63 -> wf_ranges q = true ->
+  exists n, ends_within response_next (response_new (mkTree size bs) q) n /\ N.of_nat n < 2 ^ 64 /\
+            run_iter response_next (response_new (mkTree size bs) q) = pre_plan size 0 bs q.
+Proof. exact response_ends. Qed.
+Print Assumptions C16_response_ends.
